@@ -1,5 +1,6 @@
 """C01 Daily soil-water balance closes (mass conservation) -- DESIGN 3/C01."""
 from . import _water as W
+from .. import alphabets as A
 from ..monitors.water import C01Ledger
 
 PID = "C01"
@@ -24,10 +25,11 @@ shrink = W.shrink_config
 def describe(tier):
     d = 1 if tier == "quick" else 2
     return {
-        "rule": "every configuration within d deviations of 10 water bases (soil x thickness list x initial water x irrigation "
+        "rule": f"every configuration within d deviations of {len(A.WATER_BASES)} water bases (soil x thickness list x initial water x irrigation "
                 "x field/fallow management x groundwater x off-season x crop x weather word x window), plus every single-day "
                 "weather deviation {S,M,D,C} on the executed days of each base"
-                + ("" if tier == "quick" else ", plus pairs of deviating days on a grid, plus 4 full-length crops x 6 variants on station weather")
+                + ", plus 4 full-length crops x 6 variants on recorded station weather, the same model object re-run after a new weather table was set, and records with gaps / duplicates / repeated index labels before the window"
+                + ("" if tier == "quick" else ", plus pairs of deviating days on a grid")
                 + "; one execution = a real AquaCropModel stepped one _perform_timestep at a time to termination; the ledger and the "
                 "carry-over relation are evaluated on every transition. Non-trivial = the execution hit at least one regime witness.",
         "bound": f"config deviations d<={d}; weather deviations <= {1 if tier == 'quick' else 2} days (stride {4 if tier == 'quick' else 1}); all executions run to termination",
@@ -35,7 +37,7 @@ def describe(tier):
         "witnesses": WITNESSES,
         "assumptions": [
             "storage is read from the model state before the step and from the storage/flux rows after it",
-            "weather values are limited to the 9 symbols of the alphabet; parameter values to the menus in acmc/alphabets.py",
+            "weather values are limited to the symbols of the alphabet (acmc/spec.py SYMBOLS) and the recorded station files; parameter values to the menus in acmc/alphabets.py",
             "tolerance 1e-6 mm (+0.05 mm per metre of profile on days with reported capillary rise), as in the statement",
         ],
     }
